@@ -21,6 +21,6 @@ DEq(a, b) == DOMAIN a = DOMAIN b /\ \A u \in DOMAIN a : a[u] = b[u]
 DNoZero(a) == \A u \in DOMAIN a : a[u] # 0
 
 \* from the JSON form [{u: name, e: int}, ...]
-DFromJson(arr) == [u \in {arr[i].u : i \in DOMAIN arr} |-> (CHOOSE i \in DOMAIN arr : arr[i].u = u).e]
+DFromJson(arr) == [u \in {arr[i].u : i \in DOMAIN arr} |-> arr[CHOOSE i \in DOMAIN arr : arr[i].u = u].e]
 DJsonOK(arr) == \A i, j \in DOMAIN arr : arr[i].u = arr[j].u => i = j   \* no duplicate keys
 =============================================================================
